@@ -80,15 +80,16 @@ Definition nsplit (a : si) : res (list si) :=
     Ok [A; B]
   else Ok [a].
 
-(* StridedInterval._signed_bounds: split at the south pole, then every piece at the north pole; a piece or half
-   that begins beyond its upper bound holds no member and is skipped *)
+(* StridedInterval._signed_bounds: split at the south pole, then every piece at the north pole; a piece that
+   begins beyond its upper bound, or a half whose signed lower bound is above its signed upper bound, holds no member and
+   is skipped *)
 Fixpoint half_bounds (w : Z) (hs : list si) : res (list (Z * Z)) :=
   match hs with
   | [] => Ok []
   | h :: rest =>
-    if ub h <? lb h then half_bounds w rest else
     do l <- si_unsigned_to_signed (lb h) w;
     do u <- si_unsigned_to_signed (ub h) w;
+    if u <? l then half_bounds w rest else
     do bs <- half_bounds w rest;
     Ok ((l, u) :: bs)
   end.
